@@ -100,12 +100,10 @@ fn slow_cases(seed: u64, thorough: bool) -> Vec<Case> {
 pub struct SlowRun {
     server: Server,
     handles: Vec<JoinHandle<(Case, Result<Resp, ReadErr>, u16)>>,
-    before: u64,
 }
 
 pub fn start_cases(cases: Vec<Case>) -> SlowRun {
     let server = Server::start();
-    let before = server.ctx().total();
     let addr = server.addr;
     let handles = cases
         .into_iter()
@@ -116,7 +114,7 @@ pub fn start_cases(cases: Vec<Case>) -> SlowRun {
             })
         })
         .collect();
-    SlowRun { server, handles, before }
+    SlowRun { server, handles }
 }
 
 pub fn start(seed: u64, thorough: bool) -> SlowRun {
@@ -130,12 +128,12 @@ pub fn finish(run: SlowRun, out: &mut dyn Write) {
             results.push(r);
         }
     }
-    let ok200 = results.iter().filter(|(_, r, _)| matches!(r, Ok(resp) if resp.status == 200)).count() as u64;
-    let entered_ok = run.server.ctx().total() - run.before == ok200;
     let usable = crate::cases::usable_after(&run.server, None);
     for (c, r, port) in results {
+        // the cases of this slice are in flight together, so the shared counter
+        // cannot be attributed; an echo IS the handler's answer: entered iff 200
         let is200 = matches!(&r, Ok(resp) if resp.status == 200);
-        let obs: Obs = interpret(r, is200 && entered_ok, usable);
+        let obs: Obs = interpret(r, is200, usable);
         emit(out, &line_of(&c, &obs, port));
     }
     run.server.stop();
